@@ -132,6 +132,19 @@ pub trait FromMeta: Sized {
                 // we just propagate the call to the inner expression.
                 Self::from_expr(&group.expr)
             }
+            // syn hands `name = -1` over as a literal only when nothing follows it in the
+            // stream; before another item it is `-` applied to a literal. Both spell the same
+            // negative number.
+            Expr::Unary(syn::ExprUnary {
+                op: syn::UnOp::Neg(_),
+                expr: ref operand,
+                ..
+            }) if matches!(**operand, Expr::Lit(_)) => {
+                match syn::parse2::<Lit>(quote::ToTokens::to_token_stream(expr)) {
+                    Ok(lit) => Self::from_value(&lit),
+                    Err(_) => Err(Error::unexpected_expr_type(expr)),
+                }
+            }
             _ => Err(Error::unexpected_expr_type(expr)),
         }
         .map_err(|e| e.with_span(expr))
